@@ -15,7 +15,8 @@ import (
 func init() { register("C18", runC18) }
 
 var c18Dirs = []string{"a", "b", "lib", "util", "mod"}
-var c18Stems = []string{"mod", "util", "core", "init", "x", "ui", "re"}
+// ("tablex", "ioutil": module names that BEGIN with the name of a built-in module are ordinary modules)
+var c18Stems = []string{"mod", "util", "core", "init", "x", "ui", "re", "tablex", "ioutil"}
 
 type c18Tree struct {
 	files []string // workspace-relative paths of module files (.lua, dotted .lua, .so)
